@@ -13,7 +13,7 @@ import (
 // repository (harness/c15fixture/fix.go.txt -> test/verifjsonfix). Values avoid what encoding/json itself cannot
 // round-trip behind the generated tags: empty-but-non-nil slices and maps under omitempty, ints inside `any`,
 // the field tagged json:"-".
-const c15FixN = 7
+const c15FixN = 8
 
 func c15Fixture(c *c15ctx, kind int, s1, s2 string, i1, i3 int, preDef bool) {
 	r := c.r
@@ -136,6 +136,23 @@ func c15Fixture(c *c15ctx, kind int, s1, s2 string, i1, i3 int, preDef bool) {
 		}
 		// no twin comparison: the twin embeds time.Time too and therefore encodes the same way
 		c15Run(c, v, pre, jfx.StampedMutable{Label: "o"}.AsImmutable(), nil, false, true)
+	case 7:
+		c.name = "@fp.Json fixture AllPublic (no private field)"
+		m := jfx.AllPublicMutable{Name: s1, Age: i1, Note: optS(i3, s2)}
+		if i3%2 == 0 {
+			m.Tags = []string{s2, s3}
+		}
+		if i3%3 == 0 {
+			nick := s3
+			m.Nick = &nick
+		}
+		v := m.AsImmutable()
+		pre := jfx.AllPublic{}
+		if preDef {
+			n := "preNick"
+			pre = jfx.AllPublicMutable{Name: "pre", Tags: []string{"p"}, Nick: &n, Age: 9, Note: fp.Some("preNote")}.AsImmutable()
+		}
+		c15Run(c, v, pre, jfx.AllPublicMutable{Name: "o"}.AsImmutable(), any(m), true, true)
 	default:
 		c.name = "@fp.Json fixture Outer (nested @fp.Json values, slices and maps of them)"
 		m := jfx.OuterMutable{Inner: plain(s1, i1), Wo: withOpt(i3)}
